@@ -183,6 +183,10 @@ func Param(name string) VM {
 		if u, ok := v.(*ssa.UnOp); ok && u.Op == token.MUL {
 			v = u.X
 		}
+		if fv, ok := v.(*ssa.FreeVar); ok {
+			// captured variable of an enclosing function (closures passed to DB.Update)
+			return fv.Name() == name
+		}
 		a, ok := v.(*ssa.Alloc)
 		if !ok || a.Comment != name {
 			return false
@@ -356,6 +360,18 @@ func backSlice(v ssa.Value, depth int) []ssa.Value {
 		if a, ok := v.(*ssa.Alloc); ok && a.Referrers() != nil {
 			for _, sv := range storesTo(a) {
 				walk(sv, d-1)
+			}
+			// copy(a[:], src) fills the cell
+			for _, r := range *a.Referrers() {
+				sl, ok := r.(*ssa.Slice)
+				if !ok || sl.Referrers() == nil {
+					continue
+				}
+				for _, rr := range *sl.Referrers() {
+					if cl, ok := rr.(*ssa.Call); ok && calleeName(&cl.Call) == "builtin:copy" && cl.Call.Args[0] == ssa.Value(sl) {
+						walk(cl.Call.Args[1], d-1)
+					}
+				}
 			}
 			// values stored into elements/fields of a local aggregate (varargs arrays, literals)
 			for _, r := range *a.Referrers() {
@@ -598,7 +614,19 @@ func retValue(r *ssa.Return, i int) ssa.Value {
 	if i < 0 || i >= len(r.Results) {
 		return nil
 	}
-	return r.Results[i]
+	v := r.Results[i]
+	// functions with defers spill results: *t0 = val; rundefers; t = *t0; return t
+	if u, ok := v.(*ssa.UnOp); ok && u.Op == token.MUL {
+		if a, ok := u.X.(*ssa.Alloc); ok {
+			ins := r.Block().Instrs
+			for k := len(ins) - 1; k >= 0; k-- {
+				if st, ok := ins[k].(*ssa.Store); ok && st.Addr == a {
+					return st.Val
+				}
+			}
+		}
+	}
+	return v
 }
 
 // isRejectReturn: the return certainly reports failure (non-nil error, or constant
